@@ -17,6 +17,7 @@ class Fn:
 
 
 FN_RE = re.compile(r"^fn (.+?)\((.*)\) -> (.+?) \{$")
+CONST_RE = re.compile(r"^(?:const|static) (?:mut )?(.+): (.+?) = \{$")
 
 
 def split_top(s, sep=","):
@@ -56,6 +57,16 @@ def load_functions(path):
             continue
         m = FN_RE.match(line)
         if not m:
+            cm = CONST_RE.match(line)
+            if cm:
+                # a constant / promoted item: treated as a parameterless function returning its value
+                j = i + 1
+                while j < len(lines) and lines[j] != "}":
+                    j += 1
+                header = f"fn {cm.group(1)}() -> {cm.group(2)} {{"
+                fns.setdefault(cm.group(1), []).append((header, lines[i + 1:j]))
+                i = j + 1
+                continue
             i += 1
             continue
         # find end: a line that is exactly "}"
@@ -74,7 +85,7 @@ def parse_fn(header, body):
     m = FN_RE.match(header)
     name, params_s, ret = m.group(1), m.group(2), m.group(3)
     params = []
-    for p in split_top(params_s):
+    for p in (split_top(params_s) if params_s.strip() else []):
         pm = re.match(r"^(_\d+): (.*)$", p)
         params.append((pm.group(1), pm.group(2)))
     locals_ = {"_0": ret}
@@ -245,7 +256,7 @@ def parse_rvalue(s):
     m = re.match(r"^([\w:<>, &'\[\]\(\)]+?)\((.*)\)$", s)
     if m:
         return ("variant", m.group(1), [parse_operand(p) for p in split_top(m.group(2))])
-    if re.fullmatch(r"[\w:<>, &']+", s):
+    if re.fullmatch(r"[\w:<>, &'\[\]\(\);]+", s) and "::" in s:
         return ("variant", s, [])
     raise Unsupported(f"rvalue: {s}")
 
